@@ -1107,7 +1107,7 @@ def run(ctx):
                         continue
                     if ctx.tier == 'quick' and (midx // ctx.nshards) % 4:
                         continue                # quick: every fourth mutation case; thorough: all
-                    if (midx & 0xff) == 0 and ctx.expired():
+                    if ((midx // ctx.nshards) & 0x3f) == 0 and ctx.expired():    # counted per shard: midx itself is filtered by mine()
                         mdone = False
                         break
                     check_mutation(ctx, dict(rules=rules, dcfg=dcfg, mutation=mut, change=change))
